@@ -388,7 +388,7 @@ func init() {
 		if c.Want("long-keys-badger") && c.Shard == 0 {
 			st := c.Stat("long-keys-badger", "enumeration")
 			lens := []int{200, 990, 1100, 4000, 64900, 64990, 65100, 70000}
-			st.Bounds = fmt.Sprintf("pairs of URIs sharing a prefix of %v bytes and differing in the last byte, on a real badger store: A, restart, B, A, restart, A, B", lens)
+			st.Bounds = fmt.Sprintf("pairs of URIs sharing a prefix of %v bytes and differing in the last byte, and 4 pairs where one URI is a proper prefix of the other, on a real badger store: A, restart, B, A, restart, A, B", lens)
 			dir := filepath.Join(os.Getenv("PIKEMC_WORK"), fmt.Sprintf("c06-badger-%d", os.Getpid()))
 			if os.Getenv("PIKEMC_WORK") == "" {
 				dir = filepath.Join("/verif/.work", fmt.Sprintf("c06-badger-%d", os.Getpid()))
@@ -422,6 +422,35 @@ func init() {
 				}
 				if v != nil {
 					c.Violation("long-keys-badger", v.Sig, fmt.Sprintf("two URIs of %d bytes differing in the last byte: %s", n+1, trunc([]byte(v.Msg))), nil, map[string]interface{}{"prefix_bytes": n}, nil)
+				}
+			}
+			// keys one of which is a proper prefix of the other (`/article?id=1` and `/article?id=12`): the shorter one is
+			// requested only after the longer one was persisted and the memory was lost
+			for _, pair := range [][2]string{{"/article?id=12", "/article?id=1"}, {"/a/b/c", "/a/b"}, {"/x?", "/x"}, {"/p/" + strings.Repeat("q", 300) + "/tail", "/p/" + strings.Repeat("q", 300)}} {
+				long, short := pair[0], pair[1]
+				freshCaches(bcfg)
+				e.Respond = func(oc *env.OriginCall) env.OriginResp { return env.Cacheable(oc, 100, "p") }
+				e.Events()
+				rid := 0
+				for _, u := range []string{long, "restart", short, long, "restart", short, long} {
+					if u == "restart" {
+						freshCaches(bcfg)
+						continue
+					}
+					e.Do(env.Req{URI: u, Rid: fmt.Sprintf("r%d", rid)})
+					rid++
+				}
+				an := analyze(e.Events())
+				st.Execs++
+				st.States += 5
+				st.Transitions += 7
+				st.Nontrivial++
+				v := an.selfCheck()
+				if v == nil {
+					v = an.labelTruth()
+				}
+				if v != nil {
+					c.Violation("long-keys-badger", v.Sig, fmt.Sprintf("URI %q is a prefix of %q: %s", trunc([]byte(short)), trunc([]byte(long)), trunc([]byte(v.Msg))), nil, map[string]interface{}{"short": short, "long": long}, nil)
 				}
 			}
 			if d := cache.GetDispatcher("c1"); d != nil && d.VerifStore() != nil {
